@@ -8,14 +8,11 @@ import UnytProofs.Lemmas.C14Chunk04  -- build order only: at most four chunks ar
 namespace Unyt.C14
 
 /-- every listed name of chunk 8 (four slices of 64 rows) is read by the string route and by the
-    three attribute routes as the independent reference reads it (guard: word-prefixed °C) -/
+    three attribute routes as the independent reference reads it -/
 theorem names_slice_08_0 : namesSliceOk 8 0 = true := by decide +kernel
 theorem names_slice_08_1 : namesSliceOk 8 1 = true := by decide +kernel
 theorem names_slice_08_2 : namesSliceOk 8 2 = true := by decide +kernel
 theorem names_slice_08_3 : namesSliceOk 8 3 = true := by decide +kernel
-
-/-- every excluded name of chunk 8 really is unusable as a unit string -/
-theorem exclusions_chunk_08 : exclusionsChunkOk 8 = true := by decide +kernel
 
 /-- prefix spellings 3·8 … 3·8+2 (symbols, then word forms) are rejected on every
     non-prefixable spelling (three slices of 110 spelling rows) -/
